@@ -1,6 +1,7 @@
 SPECIFICATION Spec
 CONSTANTS
   Unchecked = {"http:GET:/db/backup"}
+  FullStar = FALSE
   MutEach = FALSE
   NoBodyAfterError = TRUE
   Roles = {"leader"}
